@@ -47,7 +47,12 @@ BlobMutations   == {"shorten", "lengthen", "append-zero", "prefix+1", "prefix-1"
 
 \* a vint64 length prefix whose first byte is 0 announces an eight-byte length (the following bytes): a huge vector
 VBlobMutations  == BlobMutations \cup {"prefix-wide"}
-MutationsOf(f) == IF f.kind = "vblob" THEN {[field |-> f.name, m |-> x] : x \in VBlobMutations} ELSE
+\* one-byte scalars (counts, sizes, exponents, option fields): every value, so that semantic boundaries (the largest valid
+\* exponent, the largest valid option) are met whatever they are
+ByteSet == {"set:" \o ToString(x) : x \in 0..255}
+MutationsOf(f) == IF f.kind = "scalar" /\ f.width = 1 /\ f.name # "gkr.tag"
+                  THEN {[field |-> f.name, m |-> x] : x \in ByteSet} ELSE
+                  IF f.kind = "vblob" THEN {[field |-> f.name, m |-> x] : x \in VBlobMutations} ELSE
                   IF f.kind = "scalar" THEN {[field |-> f.name, m |-> x] : x \in ScalarMutations \cup (IF f.name = "gkr.tag" THEN OptionMutations ELSE {})}
                   ELSE {[field |-> f.name, m |-> x] : x \in BlobMutations}
 AllMutations(segments, layers, gkr) == UNION {MutationsOf(Grammar(segments, layers, gkr)[i]) : i \in DOMAIN Grammar(segments, layers, gkr)}
